@@ -182,6 +182,21 @@ def c12_r3(ctx):
         rule_elem = {e + (("field", 1),) for e in lp["elem"]}
     if ro != rule_elem:
         ctx.viol((f.id, "frame-foreign-rule"), "the frame is not built from this iteration's rule", fc.where)
+    # one numbering: the index a rule's targets are filed under in the target map is the index
+    # its frame carries (its position in the frame buffer)
+    fi = f.origins_of_operand(fc.args[1])
+    for ins in f.calls_to(HM_INSERT):
+        if ins.bb not in lp["body"]:
+            continue
+        for o in f.origins_of_operand(ins.args[2]):
+            if o[0][0] == "agg" and o[0][4] == "tuple":
+                trv = f.blocks[o[0][2]]["stmts"][o[0][3]]["rv"]
+                ctx.inst("index filed in the target map", ins.where)
+                io = f.origins_of_operand(trv["ops"][0])
+                if io == fi:
+                    ctx.ok()
+                else:
+                    ctx.viol((f.id, "two-numberings"), "the rule index filed in the target map (%s) is not the index given to the rule's frame (%s): once they drift apart, a goal or a source is resolved to a different rule" % (sorted(map(fmt_origin, io))[:2], sorted(map(fmt_origin, fi))[:2]), ins.where)
     a = ctx.P.facts.adts.get("sort::TopologicalSortMachine")
     ctx.need(a is not None, "TopologicalSortMachine")
     for fld in a["variants"][0]["fields"]:
